@@ -55,6 +55,10 @@ pub enum Op {
     Edit(usize),
     HotReload,
     GetOrInsert(usize),
+    /// load of a leaf type with two extensions and a default_value (a failed read falls back, the load succeeds)
+    LoadDef(usize),
+    /// recursive directory load of the root
+    LoadRecDir,
 }
 #[derive(Clone, Copy, Debug, Serialize, Deserialize, PartialEq)]
 pub enum Pos {
@@ -126,7 +130,11 @@ impl Property for C09 {
                 3 | 4 if nn > 0 => Op::LoadNest(g.below(nn as u64) as usize),
                 5 | 6 => Op::Edit(g.below(nleaves as u64) as usize),
                 7 | 8 => Op::HotReload,
-                9 => Op::GetOrInsert(g.below(2) as usize),
+                9 => match g.below(3) {
+                    0 => Op::GetOrInsert(g.below(2) as usize),
+                    1 => Op::LoadDef(g.below(nleaves as u64) as usize),
+                    _ => Op::LoadRecDir,
+                },
                 _ => Op::LoadLeaf(g.below(nleaves as u64) as usize),
             })
             .collect();
@@ -254,6 +262,23 @@ fn snapshot(cache: &AssetCache<SimSource>, w: &Work) -> BTreeMap<String, (String
             m.insert(format!("Nest {id}"), (format!("{:?}", h.read().seen), crate::props::c18::rid_num(h.last_reload_id())));
         }
     }
+    for k in 0..w.nleaves {
+        let id = format!("k{k}");
+        if cache.contains::<LDef>(&id) {
+            let h = cache.get_cached::<LDef>(&id).unwrap();
+            m.insert(format!("LDef {id}"), (h.read().0.show(), crate::props::c18::rid_num(h.last_reload_id())));
+        }
+    }
+    for d in ["", "sub"] {
+        if cache.contains::<assets_manager::RecursiveDirectory<LA>>(d) {
+            let h = cache.get_cached::<assets_manager::RecursiveDirectory<LA>>(d).unwrap();
+            m.insert(format!("RDir {d:?}"), (format!("{:?}", h.read().ids().collect::<Vec<_>>()), crate::props::c18::rid_num(h.last_reload_id())));
+        }
+        if cache.contains::<assets_manager::Directory<LA>>(d) {
+            let h = cache.get_cached::<assets_manager::Directory<LA>>(d).unwrap();
+            m.insert(format!("Dir {d:?}"), (format!("{:?}", h.read().ids().collect::<Vec<_>>()), crate::props::c18::rid_num(h.last_reload_id())));
+        }
+    }
     for i in 0..2 {
         let id = format!("g{i}");
         if cache.contains::<TV>(&id) {
@@ -276,6 +301,8 @@ fn scenario(w: Work, pos: Option<Pos>, expect: Option<Final>, fin: Shared<Final>
     for (n, ents) in w.nests.iter().enumerate() {
         tree.put(&format!("n{n}"), "n", ents.join(" ").as_bytes());
     }
+    tree.put("sub.s0", "a", b"s0");
+    tree.put("sub.deep.s1", "a", b"s1");
     let src = SimSource::new(tree, HotMode::Custom, 3);
     let cache = AssetCache::with_source(src.clone());
     match pos {
@@ -291,6 +318,7 @@ fn scenario(w: Work, pos: Option<Pos>, expect: Option<Final>, fin: Shared<Final>
         let before = snapshot(&cache, &w);
         let f0 = fired();
         let reads0 = src.reads();
+        let op_start_seq = detsim::seq();
         // Ok(Some(description)) / Ok(None) for unit ops / Err(id) / panicked
         let res: std::thread::Result<Result<String, String>> = detsim::reraise_abort(catch_unwind(AssertUnwindSafe(|| match op {
             Op::LoadLeaf(k) => cache.load::<LAB>(&format!("k{k}")).map(|h| h.read().0.show()).map_err(|e| e.id().to_string()),
@@ -307,12 +335,23 @@ fn scenario(w: Work, pos: Option<Pos>, expect: Option<Final>, fin: Shared<Final>
                 cache.hot_reload();
                 Ok(String::new())
             }
+            Op::LoadDef(k) => cache.load::<LDef>(&format!("k{k}")).map(|h| h.read().0.show()).map_err(|e| e.id().to_string()),
+            Op::LoadRecDir => cache.load_rec_dir::<LA>("").map(|h| format!("{:?}", h.read().ids().collect::<Vec<_>>())).map_err(|e| e.id().to_string()),
             Op::GetOrInsert(i) => Ok(format!("{}", cache.get_or_insert::<TV>(&format!("g{i}"), TV { n: 40 + *i as u64, t: Tracked::new("tv") }).read().n)),
         })));
         let hit_here = fired() > f0;
         detsim::check(recording_ptr() == 0, "C09/recording-not-restored", || format!("op {oi} {op:?}: the calling thread's recorder is {:#x} after the call returned (result {res:?}), it was null before", recording_ptr()));
         let after = snapshot(&cache, &w);
+        // listing the directory that was asked for must not fail silently: an unreadable *sub*-directory is skipped, not the directory itself
+        if *op == Op::LoadRecDir && hit_here {
+            let failed_root_listing = src.log().iter().rev().take_while(|l| l.seq > 0).any(|l| l.op == 'd' && l.id.is_empty() && !l.ok && l.seq >= op_start_seq);
+            if failed_root_listing {
+                detsim::check(!matches!(res, Ok(Ok(_))), "C09/partial-directory-listing-returned", || format!("op {oi}: listing the root failed with an injected error during load_rec_dir(\"\"), yet the call returned {res:?}"));
+            }
+        }
         let requested = match op {
+            Op::LoadDef(k) => Some(format!("k{k}")),
+            Op::LoadRecDir => Some(String::new()),
             Op::LoadLeaf(k) | Op::OwnedLeaf(k) => Some(format!("k{k}")),
             Op::LoadNest(n) => Some(format!("n{n}")),
             _ => None,
@@ -329,7 +368,12 @@ fn scenario(w: Work, pos: Option<Pos>, expect: Option<Final>, fin: Shared<Final>
             }
             if !matches!(res, Ok(Ok(_))) {
                 if let Some(id) = &requested {
-                    let key = if matches!(op, Op::LoadNest(_)) { format!("Nest {id}") } else { format!("LAB {id}") };
+                    let key = match op {
+                        Op::LoadNest(_) => format!("Nest {id}"),
+                        Op::LoadDef(_) => format!("LDef {id}"),
+                        Op::LoadRecDir => format!("RDir {id:?}"),
+                        _ => format!("LAB {id}"),
+                    };
                     detsim::check(before.contains_key(&key) || !after.contains_key(&key), "C09/failed-load-cached-something", || format!("op {oi} {op:?} failed ({res:?}) but {key} is now cached: {:?}", after.get(&key)));
                 }
             }
@@ -342,7 +386,9 @@ fn scenario(w: Work, pos: Option<Pos>, expect: Option<Final>, fin: Shared<Final>
         }
         // no partially built value: every live tracked value is reachable from the cache
         let live = ledger::live();
-        detsim::check(live.len() == after.len(), "C09/partial-value-or-leak", || format!("after op {oi} {op:?} ({res:?}): {} tracked values are alive but {} entries are cached: live {live:?}, cached {:?}", live.len(), after.len(), after.keys().collect::<Vec<_>>()));
+        // (directory listings own no tracked value)
+        let with_value = after.keys().filter(|k| !k.starts_with("Dir") && !k.starts_with("RDir")).count();
+        detsim::check(live.len() == with_value, "C09/partial-value-or-leak", || format!("after op {oi} {op:?} ({res:?}): {} tracked values are alive but {} entries are cached: live {live:?}, cached {:?}", live.len(), after.len(), after.keys().collect::<Vec<_>>()));
         if hit_here {
             let on_reloader = *op == Op::HotReload;
             let mut f = fin.lock().unwrap();
@@ -368,6 +414,13 @@ fn scenario(w: Work, pos: Option<Pos>, expect: Option<Final>, fin: Shared<Final>
         } else {
             let _ = cache.load::<LAB>(id);
         }
+    }
+    for k in 0..w.nleaves {
+        let _ = cache.load::<LDef>(&format!("k{k}"));
+    }
+    let _ = cache.load_rec_dir::<LA>("");
+    for d in ["", "sub", "sub.deep"] {
+        src.notify(dir_entry(d));
     }
     let files: Vec<String> = src.snapshot().files.keys().cloned().collect();
     for f in files {
